@@ -16,6 +16,10 @@ TEMPLATES = {
         ("two_names", ["PROTOCOL", "ECU-SHARED-DATA", "BASE-VARIANT"], ["o", "p"], []),
         ("comparams", ["PROTOCOL", "BASE-VARIANT", "ECU-VARIANT"], [], [["cp1", ""], ["cp1", "L1"], ["cpx", ""]]),
         ("comparams_two_protocols", ["PROTOCOL", "PROTOCOL", "BASE-VARIANT"], [], [["cp1", ""], ["cp1", "L1"], ["cpx", "L1"]]),
+        # PARENT-REFs written in descending layer order (functional group before protocol; second protocol before first)
+        ("comparams_group_rev", ["PROTOCOL", "FUNCTIONAL-GROUP", "BASE-VARIANT"], [], [["cp1", ""], ["cpx", ""], ["cpx", "L1"]], True),
+        ("comparams_two_protocols_rev", ["PROTOCOL", "PROTOCOL", "BASE-VARIANT"], [], [["cp1", ""], ["cpx", ""], ["cpx", "L1"]], True),
+        ("two_names_rev", ["PROTOCOL", "ECU-SHARED-DATA", "BASE-VARIANT"], ["o", "p"], [], True),
     ],
     "thorough": [
         ("chain", ["PROTOCOL", "FUNCTIONAL-GROUP", "BASE-VARIANT", "ECU-VARIANT"], ["o"], []),
@@ -29,11 +33,20 @@ TEMPLATES = {
          [["cp1", ""], ["cp1", "L1"], ["cpx", ""], ["cpx", "L1"]]),
         ("comparams_two_protocols", ["PROTOCOL", "PROTOCOL", "BASE-VARIANT", "ECU-VARIANT"], [],
          [["cp1", ""], ["cp1", "L1"], ["cpx", ""]]),
+        ("comparams_rev", ["PROTOCOL", "FUNCTIONAL-GROUP", "BASE-VARIANT", "ECU-VARIANT"], [],
+         [["cp1", ""], ["cp1", "L1"], ["cpx", ""], ["cpx", "L1"]], True),
+        ("comparams_two_protocols_rev", ["PROTOCOL", "PROTOCOL", "BASE-VARIANT", "ECU-VARIANT"], [],
+         [["cp1", ""], ["cpx", "L1"], ["cpx", ""]], True),
+        ("two_names_rev", ["PROTOCOL", "ECU-SHARED-DATA", "BASE-VARIANT", "ECU-VARIANT"], ["o", "p"], [], True),
     ],
 }
 
 
-def run_model(name: str, types: List[str], names: List[str], cpkeys: List[List[str]]) -> Tuple[tlc.TlcResult, List[Dict[str, Any]]]:
+def templates(tier: str) -> List[Tuple[str, List[str], List[str], List[List[str]], bool]]:
+    return [(t[0], t[1], t[2], t[3], bool(t[4]) if len(t) > 4 else False) for t in TEMPLATES[tier]]   # type: ignore[misc]
+
+
+def run_model(name: str, types: List[str], names: List[str], cpkeys: List[List[str]], rev: bool = False) -> Tuple[tlc.TlcResult, List[Dict[str, Any]]]:
     wd = tlc.workdir("layers")
     try:
         q = lambda xs: "{" + ", ".join(f'"{x}"' for x in xs) + "}"   # noqa: E731
@@ -41,7 +54,7 @@ def run_model(name: str, types: List[str], names: List[str], cpkeys: List[List[s
         keys = "{" + ", ".join(f'<<"{k[0]}", "{k[1]}">>' for k in cpkeys) + "}"
         (wd / "MCL.tla").write_text(f"---- MODULE MCL ----\nEXTENDS MC_Layers\nT == <<{tt}>>\nK == {keys}\n====\n")
         (wd / "MCL.cfg").write_text(f"SPECIFICATION Spec\nCONSTANTS\n  Template <- T\n  Names = {q(names)}\n  CpKeys <- K\n"
-                                    f"  MaxCp = {2 if cpkeys else 0}\nINVARIANT MergeIsView\nINVARIANT LocalWins\n"
+                                    f"  MaxCp = {2 if cpkeys else 0}\n  Rev = {'TRUE' if rev else 'FALSE'}\nINVARIANT MergeIsView\nINVARIANT LocalWins\n"
                                     "PROPERTY ParentsUnaffected\nINVARIANT Emit\n")
         res = tlc.run("MCL.tla", "MCL.cfg", cwd=wd, timeout=3000)
         if not res.ok:
@@ -64,7 +77,10 @@ def subset_doc() -> str:
         return og.tag("COMPARAM", og.sn(name) + f"<PHYSICAL-DEFAULT-VALUE>{default}</PHYSICAL-DEFAULT-VALUE>" +
                       og.ref("DATA-OBJECT-PROP-REF", "CSS.DOP"),
                       **{"ID": oid, "PARAM-CLASS": "COM", "CPTYPE": "STANDARD", "CPUSAGE": "ECU-COMM"})
-    cx = og.tag("COMPLEX-COMPARAM", og.sn("CP_UniqueRespIdTable") + cp("CSS.sub1", "CP_CanPhysReqId", "2016") +
+    # a nested complex sub-parameter in front of the simple ones (sub-values are positional)
+    nested = og.tag("COMPLEX-COMPARAM", og.sn("CP_Nested") + cp("CSS.sub0a", "CP_Inner", "7"),
+                    **{"ID": "CSS.sub0", "PARAM-CLASS": "COM", "CPTYPE": "STANDARD", "CPUSAGE": "ECU-COMM"})
+    cx = og.tag("COMPLEX-COMPARAM", og.sn("CP_UniqueRespIdTable") + nested + cp("CSS.sub1", "CP_CanPhysReqId", "2016") +
                 cp("CSS.sub2", "CP_CanRespUSDTId", "2024"),
                 **{"ID": "CSS.cpx", "PARAM-CLASS": "UNIQUE_ID", "CPTYPE": "STANDARD", "CPUSAGE": "ECU-COMM"})
     body = og.tag("COMPARAMS", cp("CSS.cp1", "CP_Baudrate", "500000")) + og.tag("COMPLEX-COMPARAMS", cx) + \
@@ -83,7 +99,8 @@ def comparam_ref(key: List[str], layer_idx: int) -> str:
     else:
         # odd layers leave the second sub-value out (the default of the specification applies)
         second = "" if layer_idx % 2 else str(200 + layer_idx)
-        val = og.tag("COMPLEX-VALUE", f"<SIMPLE-VALUE>{100 + layer_idx + (50 if proto else 0)}</SIMPLE-VALUE>"
+        val = og.tag("COMPLEX-VALUE", "<COMPLEX-VALUE><SIMPLE-VALUE>9</SIMPLE-VALUE></COMPLEX-VALUE>"
+                     f"<SIMPLE-VALUE>{100 + layer_idx + (50 if proto else 0)}</SIMPLE-VALUE>"
                      f"<SIMPLE-VALUE>{second}</SIMPLE-VALUE>")
     body = val + (og.snref("PROTOCOL-SNREF", proto) if proto else "")
     return og.tag("COMPARAM-REF", body, **{"ID-REF": CP_ID[name], "DOCREF": "CSS", "DOCTYPE": "COMPARAM-SUBSET"})
@@ -118,7 +135,7 @@ def build_docs(cfg: Dict[str, Any]) -> List[str]:
         if ug:
             lay.unit_spec = og.tag("UNIT-SPEC", og.tag("UNIT-GROUPS", ug))
         nimap = {int(p): list(names) for (p, names) in cfg["ni"][i - 1]}
-        for p in cfg["parents"][i - 1]:
+        for p in (reversed(cfg["parents"][i - 1]) if cfg.get("rev") else cfg["parents"][i - 1]):
             names = nimap.get(int(p), [])
             lay.parent_refs.append(og.parent_ref(f"L{p}.id", types[p - 1], "DLC",
                                                  ni_diag_comms=[x for n in names for x in (n, f"{n}_job")],
@@ -178,12 +195,12 @@ def process(cfgs: List[Dict[str, Any]]) -> Dict[str, Any]:
     from odxtools.exceptions import DecodeError, OdxError
     fails: List[Tuple[str, str, Dict[str, Any]]] = []
     st = {"configs": 0, "clash_configs": 0, "views": 0, "excluded": 0, "overridden": 0, "decodes": 0, "comparam_lookups": 0,
-          "accessor_calls": 0, "default_fallbacks": 0}
+          "accessor_calls": 0, "default_fallbacks": 0, "protocol_objects": 0, "payload_sizes": 0}
 
     def fail(prop: str, clause: str, cfg: Dict[str, Any], detail: Dict[str, Any]) -> None:
         if len(fails) < 300:
             fails.append((prop, clause, {"machine": "Layers", "types": cfg["types"], "parents": cfg["parents"], "defs": cfg["defs"],
-                                         "ni": cfg["ni"], "cps": cfg["cps"], **detail}))
+                                         "ni": cfg["ni"], "cps": cfg["cps"], "rev": bool(cfg.get("rev", False)), **detail}))
     for cfg in cfgs:
         st["configs"] += 1
         st["clash_configs"] += bool(cfg["clash"])
@@ -241,12 +258,35 @@ def process(cfgs: List[Dict[str, Any]]) -> Dict[str, Any]:
                 elif got is not None and _cp_owner(got) != own:
                     fail("C15", "effective_owner", cfg, {"layer": i, "key": key, "expected_owner": own, "got_owner": _cp_owner(got)})
             for (name, proto, (own, which)) in cfg["lookup"][i - 1]:
+                if proto and (int(proto[1:]) > n or cfg["types"][int(proto[1:]) - 1] != "PROTOCOL"):
+                    continue           # not a protocol of this configuration
                 st["comparam_lookups"] += 1
                 try:
                     cp = lay.get_comparam(CP_NAME[name], protocol=proto or None)
+                    if proto:
+                        # the protocol may be given as the layer object instead of its name
+                        st["protocol_objects"] += 1
+                        cp_o = lay.get_comparam(CP_NAME[name], protocol=db.protocols[proto])
+                        if cp_o is not cp:
+                            fail("C15", "lookup_by_protocol_object", cfg, {"layer": i, "name": name, "protocol": proto,
+                                                                           "by_name": None if cp is None else [_cp_owner(cp), cp.protocol_snref or ""],
+                                                                           "by_object": None if cp_o is None else [_cp_owner(cp_o), cp_o.protocol_snref or ""]})
                 except Exception as e:  # noqa: BLE001
                     fail("C15", "get_comparam_raises", cfg, {"layer": i, "name": name, "protocol": proto, "exc": type(e).__name__})
                     continue
+                if name == "cpx" and proto:
+                    # no CP_CANFDTxMaxDataLength anywhere: 8 bytes if the layer talks CAN over that protocol, else no CAN at all
+                    st["payload_sizes"] += 1
+                    try:
+                        got_sz = lay.get_max_can_payload_size(protocol=proto)
+                        got_sz_o = lay.get_max_can_payload_size(protocol=db.protocols[proto])
+                        want_sz = 8 if own != 0 else None
+                        if got_sz != want_sz or got_sz_o != want_sz:
+                            fail("C15", "accessor_payload_size", cfg, {"layer": i, "protocol": proto, "expected": want_sz,
+                                                                       "got": [got_sz, got_sz_o]})
+                    except Exception as e:  # noqa: BLE001
+                        fail("C15", "accessor_raises", cfg, {"layer": i, "name": "max_can_payload_size", "protocol": proto,
+                                                             "exc": type(e).__name__, "msg": str(e)[:100]})
                 if proto == "":
                     # no protocol given = "don't care": prescribed only if exactly one definition of that name is in effect
                     have = [(kk, o) for (kk, o) in cfg["eff"][i - 1] if kk[0] == name and o != 0]
@@ -298,7 +338,7 @@ def _cp_owner(cp: Any) -> int:
     v = cp.value
     if isinstance(v, str):
         return int(v) // 1000
-    return (int(v[0]) - 100) % 50
+    return (int(v[1]) - 100) % 50
 
 
 def check(prop: str, tier: str, replay: Optional[str]) -> int:
@@ -311,12 +351,12 @@ def check(prop: str, tier: str, replay: Optional[str]) -> int:
     if replay:
         case = json.loads(open(replay).read())
         want = (case["types"], case["parents"], case["defs"], case["ni"], case["cps"])
-    for (name, types, names, cpkeys) in TEMPLATES[tier]:
+    for (name, types, names, cpkeys, rev) in templates(tier):
         if (prop == "C15") != bool(cpkeys):
             continue
-        if replay and types != want[0]:
+        if replay and (types != want[0] or rev != bool(case.get("rev", False))):
             continue
-        res, recs = run_model(name, types, names, cpkeys)
+        res, recs = run_model(name, types, names, cpkeys, rev)
         print(f"[{prop}] TLC {name}: {res.distinct} states, {len(recs)} configurations, {res.wall_s:.1f}s", flush=True)
         design[name] = {"distinct": res.distinct, "configurations": len(recs), "tlc_s": round(res.wall_s, 1), "types": types}
         states += res.distinct
